@@ -22,6 +22,7 @@ import (
 	"fmt"
 	"io"
 	"math/rand"
+	"net"
 	"net/http"
 	"os"
 	"os/exec"
@@ -84,7 +85,7 @@ func main() {
 		},
 		Post: func(c *ev.Check, outs []*run.Outcome) {
 			for _, k := range []string{"archives_verified", "gap.cases_200", "gap.bursts_effective", "gapreg.cases_200", "gapreg.empty_key_archives",
-				"conc.archives_with_concurrent_append", "conc.runs", "rate.decisive_bursts", "rate.staggered_on_schedule", "rate.held_in_time", "rate.status_200", "rate.status_429",
+				"conc.archives_with_concurrent_append", "conc.runs", "rate.decisive_bursts", "rate.staggered_on_schedule", "rate.held_in_time", "rate.status_200", "rate.status_429", "rate.requests_from_other_source_addresses",
 				"verified.reports", "verified.authorizations", "verified.stats_records", "verified.entries", "prefix_checks_after_quiescence", "privkey_scans",
 				"hunt.archives", "statsappend.chased_requests", "tornstart.started", "tornstart.archives", "fifo.parked", "shortwrite.episodes", "shortwrite.archives"} {
 				c.Require(k, 1)
@@ -520,10 +521,16 @@ type rec struct {
 	S, R   time.Duration // send / receive instants on the process' monotonic clock
 	Status int
 	Burst  int
+	Src    int // 0: default source address; k: 127.0.0.(k+1)
 }
 
 type fetcher struct {
 	hc   *http.Client
+	// srcs are clients bound to other loopback source addresses
+	// (127.0.0.2 …): the limit is the server's, not one caller's, so odd
+	// bursts spread their requests over all of them.
+	srcs []*http.Client
+	n    atomic.Uint64
 	url  string
 	base time.Time
 	mu   sync.Mutex
@@ -531,14 +538,25 @@ type fetcher struct {
 }
 
 func newFetcher(port uint16) *fetcher {
+	var srcs []*http.Client
+	for i := 2; i <= 7; i++ {
+		d := &net.Dialer{Timeout: 10 * time.Second, LocalAddr: &net.TCPAddr{IP: net.IPv4(127, 0, 0, byte(i))}}
+		srcs = append(srcs, &http.Client{Timeout: 40 * time.Second, Transport: &http.Transport{DialContext: d.DialContext, MaxIdleConnsPerHost: 64, IdleConnTimeout: 1 * time.Second}})
+	}
 	return &fetcher{
+		srcs: srcs,
 		hc:   &http.Client{Timeout: 40 * time.Second, Transport: &http.Transport{MaxIdleConnsPerHost: 64, IdleConnTimeout: 1 * time.Second}}, // below the test server's 2.5 s keep-alive limit
 		url:  fmt.Sprintf("http://127.0.0.1:%d/api/v1/archive", port),
 		base: time.Now(),
 	}
 }
 
-func (f *fetcher) close() { f.hc.CloseIdleConnections() }
+func (f *fetcher) close() {
+	f.hc.CloseIdleConnections()
+	for _, c := range f.srcs {
+		c.CloseIdleConnections()
+	}
+}
 
 // get issues one GET. s is taken before the request is handed to the
 // transport, r after the status line and headers have been read, so the
@@ -549,7 +567,13 @@ func (f *fetcher) get(burst int) (int, []byte, error) {
 		return 0, nil, err
 	}
 	s := time.Since(f.base)
-	resp, err := f.hc.Do(req)
+	hc, src := f.hc, 0
+	if burst%2 == 1 {
+		if src = int(f.n.Add(1) % uint64(len(f.srcs)+1)); src > 0 {
+			hc = f.srcs[src-1]
+		}
+	}
+	resp, err := hc.Do(req)
 	r := time.Since(f.base)
 	if err != nil {
 		return 0, nil, err
@@ -557,7 +581,7 @@ func (f *fetcher) get(burst int) (int, []byte, error) {
 	body, err := io.ReadAll(resp.Body)
 	resp.Body.Close()
 	f.mu.Lock()
-	f.recs = append(f.recs, rec{S: s, R: r, Status: resp.StatusCode, Burst: burst})
+	f.recs = append(f.recs, rec{S: s, R: r, Status: resp.StatusCode, Burst: burst, Src: src})
 	f.mu.Unlock()
 	return resp.StatusCode, body, err
 }
@@ -617,6 +641,11 @@ func judgeRate(v *verifier, f *fetcher, phase string) {
 			"%d archive requests were answered 200 although send of the first to receive of the last spans less than one window (%v): limit is %d", n, window, limit)
 	}
 	v.r.Count("rate.requests_judged", int64(len(recs)))
+	for _, x := range recs {
+		if x.Src > 0 {
+			v.r.Count("rate.requests_from_other_source_addresses", 1)
+		}
+	}
 }
 
 // ---------------------------------------------------------------- helpers shared by the children
